@@ -363,10 +363,34 @@ impl Cfg {
 /// Format function that writes the message only: a line is `payload + line ending`.
 pub fn payload_format(
     w: &mut dyn std::io::Write,
-    _now: &mut DeferredNow,
+    now: &mut DeferredNow,
     record: &Record,
 ) -> Result<(), std::io::Error> {
+    // like the provided formats: the record's timestamp is taken before its text is rendered
+    let _ = now.now();
     write!(w, "{}", record.args())
+}
+
+/// Logs `msg` at info level; rendering the message advances the virtual clock by `secs` seconds
+/// (a thread that is held up between taking the record's timestamp and writing the record).
+pub fn log_info_slow(logger: &dyn Log, clock: &std::sync::Arc<crate::hooks::VClock>, secs: i64, msg: &str) {
+    struct Slow<'a>(&'a std::sync::Arc<crate::hooks::VClock>, i64, &'a str);
+    impl std::fmt::Display for Slow<'_> {
+        fn fmt(&self, f: &mut std::fmt::Formatter<'_>) -> std::fmt::Result {
+            self.0.advance_secs(self.1);
+            write!(f, "{}", self.2)
+        }
+    }
+    logger.log(
+        &Record::builder()
+            .args(format_args!("{}", Slow(clock, secs, msg)))
+            .level(Level::Info)
+            .target("app")
+            .module_path(Some("app"))
+            .file(Some("src/h.rs"))
+            .line(Some(7))
+            .build(),
+    );
 }
 
 /// Payload of exactly `len` bytes (len may be 0), unique per (thread tag, seq) when len allows.
